@@ -148,6 +148,12 @@ fn main() {
     };
     let mut witness: Option<Vec<String>> = None;
     let mut i = 2;
+    if prop == "probe" {
+        // xv probe <doc> <expr> [prefix=uri ...]: show xml-rs / O2 / O3 outcomes (diagnostic aid, not a check)
+        let h = std::thread::Builder::new().stack_size(8 << 20).spawn(move || { install_hook(); props::xpathp::probe(&args[2], &args[3], &args[4..]); }).unwrap();
+        let _ = h.join();
+        return;
+    }
     if prop == "witness" {
         prop = args[2].clone();
         let mut f = vec![];
